@@ -20,20 +20,113 @@ gvars == <<vars, cache>>
 \* ---- names ----------------------------------------------------------------
 OriginPort == 4430
 DelegPort == 4431
-InvalidKinds == {"empty", "underscore", "space", "barev6", "unclosed", "nohost", "port6digits",
-                 "portalpha", "portempty", "bracketname", "twoports", "nonascii"}
-Inv(k) == MkName("INV:" \o k, "no", NoPort, FALSE)
+
+\* Invalid server names.  The grammar of server names lives in Ident.tla (C17); it is instanced
+\* here only to JUDGE the spellings below (NamesPerIdent, asserted in Init): every spelling this generator
+\* calls invalid is refused by Ident's grammar even in its lax reading, every valid shape is
+\* accepted in the strict one.  A spelling is a sequence of Ident characters ("sp" "nul" "u2" "PAD"
+\* as there) plus three placeholders the concretiser fills with the scenario's own host:
+\*    "<dns>" a DNS name     "<v4>" an IPv4 literal     "<v6>" the body of an IPv6 literal
+\* An invalid name = host spelling x port spelling, one of them (or both) at fault, so that every
+\* port fault is driven on every host shape and every host fault with and without a port.
+Id == INSTANCE Ident WITH Mode <- "free", FreeLen <- 0, MaxDev <- 0, atoms <- <<>>, pos <- "", n <- 0,
+                          dev <- 0, phase <- "", padlen <- 252, out <- ""
+
+GoodHostKinds == {"dns", "v4", "v6"}
+V6NoKinds == Id!V6NoAtoms \ {"v6no1", "v6no9"}        \* = br_empty, br_ipv4 below
+BadHostKinds == {"empty", "underscore", "space_in", "space_lead", "space_trail", "nonascii", "fourbyte", "nul",
+                 "slash", "at", "percent", "dns256",
+                 "br_ipv4", "br_name", "br_empty", "br_trailing", "br_nested", "unclosed", "unopened", "barev6"}
+                \cup V6NoKinds
+HostChars(k) ==
+    CASE k = "dns" -> <<"<dns>">>
+      [] k = "v4" -> <<"<v4>">>
+      [] k = "v6" -> <<"[", "<v6>", "]">>
+      [] k = "empty" -> <<>>
+      [] k = "underscore" -> <<"a", "_", "<dns>">>
+      [] k = "space_in" -> <<"a", "sp", "<dns>">>
+      [] k = "space_lead" -> <<"sp", "<dns>">>
+      [] k = "space_trail" -> <<"<dns>", "sp">>
+      [] k = "nonascii" -> <<"u2", "<dns>">>
+      [] k = "fourbyte" -> <<"<dns>", "u4">>
+      [] k = "nul" -> <<"<dns>", "nul">>
+      [] k = "slash" -> <<"<dns>", "/">>
+      [] k = "at" -> <<"a", "@", "<dns>">>
+      [] k = "percent" -> <<"%", "<dns>">>
+      [] k = "dns256" -> <<"PAD", ".", "<dns>">>            \* 256 characters, all of them DNS characters
+      [] k = "br_ipv4" -> <<"[", "<v4>", "]">>
+      [] k = "br_name" -> <<"[", "<dns>", "]">>
+      [] k = "br_empty" -> <<"[", "]">>
+      [] k = "br_trailing" -> <<"[", "<v6>", "]", "z">>
+      [] k = "br_nested" -> <<"[", "[", "<v6>", "]", "]">>
+      [] k = "unclosed" -> <<"[", "<v6>">>
+      [] k = "unopened" -> <<"<v6>", "]">>
+      [] k = "barev6" -> <<"<v6>">>
+      [] OTHER -> <<"[">> \o Id!Chars(k) \o <<"]">>         \* Ident's table of invalid IPv6 bodies
+
+GoodPortKinds == {"none", "ok"}
+BadPortKinds == {"empty", "plus", "minus", "minus1", "pluszero", "alpha", "word", "space_lead", "space_trail",
+                 "hex", "6digits", "6digits_lead0", "gt65535", "99999", "twoports", "dot", "underscore",
+                 "nonascii", "exp", "nul"}
+PortChars(k) ==      \* what follows the ":" ("none": there is no ":")
+    CASE k = "ok" -> <<"8", "4", "4", "8">>
+      [] k = "empty" -> <<>>
+      [] k = "plus" -> <<"+", "8", "4", "4", "8">>
+      [] k = "minus" -> <<"-", "8", "4", "4", "8">>
+      [] k = "minus1" -> <<"-", "1">>
+      [] k = "pluszero" -> <<"+", "0">>
+      [] k = "alpha" -> <<"8", "0", "a">>
+      [] k = "word" -> <<"a", "b", "c">>
+      [] k = "space_lead" -> <<"sp", "8", "0">>
+      [] k = "space_trail" -> <<"8", "0", "sp">>
+      [] k = "hex" -> <<"f", "f">>
+      [] k = "6digits" -> <<"1", "2", "3", "4", "5", "6">>
+      [] k = "6digits_lead0" -> Id!Chars("p000080")
+      [] k = "gt65535" -> Id!Chars("p65536")
+      [] k = "99999" -> Id!Chars("p99999")
+      [] k = "twoports" -> <<"8", "0", ":", "8", "0">>
+      [] k = "dot" -> <<"8", ".", "0">>
+      [] k = "underscore" -> <<"8", "_", "0">>
+      [] k = "nonascii" -> <<"8", "u2">>
+      [] k = "exp" -> <<"1", "e", "3">>
+      [] k = "nul" -> <<"8", "0", "nul">>
+
+NameChars(hk, pk) == HostChars(hk) \o (IF pk = "none" THEN <<>> ELSE <<":">> \o PortChars(pk))
+InvKinds == (GoodHostKinds \X BadPortKinds) \cup (BadHostKinds \X GoodPortKinds)
+InvTok(hp) == "INV:" \o hp[1] \o "/" \o hp[2]
+Inv(hp) == MkName(InvTok(hp), "no", NoPort, FALSE)
+\* the spelling of a name (<<>> for the valid shapes, which the concretiser spells from the tokens)
+TxtOf(nm) == IF \E hp \in InvKinds : InvTok(hp) = nm.host
+             THEN LET hp == CHOOSE hp \in InvKinds : InvTok(hp) = nm.host IN NameChars(hp[1], hp[2])
+             ELSE <<>>
+
+RECURSIVE ToIdent(_)
+ToIdent(cs) == IF cs = <<>> THEN <<>>
+               ELSE (CASE Head(cs) = "<dns>" -> <<"a", ".", "z">>
+                       [] Head(cs) = "<v4>" -> Id!Chars("ipv4")
+                       [] Head(cs) = "<v6>" -> Id!Chars("v6ok4")
+                       [] OTHER -> <<Head(cs)>>) \o ToIdent(Tail(cs))
+NamesPerIdent ==
+    /\ \A hp \in InvKinds : ~Id!ServerNameOK(ToIdent(NameChars(hp[1], hp[2])), TRUE)
+    /\ \A hk \in GoodHostKinds, pk \in GoodPortKinds : Id!ServerNameOK(ToIdent(NameChars(hk, pk)), FALSE)
+    /\ \A hp \in InvKinds : \A i \in DOMAIN ToIdent(NameChars(hp[1], hp[2])) :
+            ToIdent(NameChars(hp[1], hp[2]))[i] \in Id!KnownChars
+\* (checked once, as the first conjunct of Init: SANY gives instanced operators that mention a
+\* substituted variable level 1, so it cannot be an ASSUME)
 
 Origins == {MkName("S", "no", p, TRUE) : p \in {NoPort, OriginPort}}
       \cup {MkName("L4", "v4", p, TRUE) : p \in {NoPort, OriginPort}}
       \cup {MkName("L6", "v6", p, TRUE) : p \in {NoPort, OriginPort}}
-      \cup {Inv(k) : k \in InvalidKinds}
+      \cup {Inv(hp) : hp \in InvKinds}
 
 DName == MkName("D", "no", NoPort, TRUE)
+InvDelegKinds == InvKinds \ {<<"empty", "none">>}      \* the empty string is "no m.server"
+\* invalid delegations that get the full SRV product also in the quick tier
+CoreInvDeleg == {<<"underscore", "none">>, <<"dns", "plus">>, <<"dns", "empty">>, <<"br_ipv4", "none">>, <<"barev6", "none">>}
 DelegTargets == {DName, MkName("D", "no", DelegPort, TRUE)}
       \cup {MkName("DL4", "v4", p, TRUE) : p \in {NoPort, DelegPort}}
       \cup {MkName("DL6", "v6", p, TRUE) : p \in {NoPort, DelegPort}}
-      \cup {Inv(k) : k \in InvalidKinds \ {"empty"}}
+      \cup {Inv(hp) : hp \in InvDelegKinds}
 
 \* ---- well-known outcomes --------------------------------------------------
 WKrec(st, size, cl, pad, body, tgt) ==
@@ -74,9 +167,10 @@ InitResolve ==
     LET readsO == Plain(o) /\ ~(Honoured(w) /\ w.target.valid)
         readsD == Plain(o) /\ Honoured(w) /\ Plain(w.target)
         full == Depth = "thorough" /\ Plain(o) /\ w.size = "small"
+        slim == Depth = "quick" /\ Honoured(w) /\ ~w.target.valid /\ w.target \notin {Inv(hp) : hp \in CoreInvDeleg}
     IN
-    \E of \in (IF readsO \/ full THEN SrvKinds ELSE {"one"}),
-       ol \in (IF readsO \/ full THEN SrvKinds ELSE {"one"}),
+    \E of \in (IF slim THEN {"nx", "one", "err"} ELSE IF readsO \/ full THEN SrvKinds ELSE {"one"}),
+       ol \in (IF slim THEN {"nx", "one"} ELSE IF readsO \/ full THEN SrvKinds ELSE {"one"}),
        df \in (IF readsD \/ full THEN SrvKinds ELSE {"one"}),
        dl \in (IF readsD \/ full THEN SrvKinds ELSE {"one"}) :
     \E se \in {"next", "default", "refuse"}, bd \in {"refuse", "step4"} :
@@ -105,7 +199,8 @@ InitCache ==
        /\ pc = "done" /\ cur = origin /\ role = "origin" /\ result = <<>> /\ refused = FALSE
        /\ wkreqs = <<>> /\ srvq = <<>> /\ steps = <<>>
 
-Init == IF Family = "cache" THEN InitCache ELSE InitResolve
+Init == /\ Assert(NamesPerIdent, "an invalid-name spelling is accepted by Ident.tla (or a valid shape refused)")
+        /\ IF Family = "cache" THEN InitCache ELSE InitResolve
 GNext == Next /\ UNCHANGED cache
 Spec == Init /\ [][GNext]_gvars
 
@@ -125,6 +220,7 @@ Emit == Done =>
     THEN PrintT(ToJson([fam |-> "cache", cache |-> cache,
                         expect |-> CacheLifetime(MaxAgeOf(cache.cc, cache.n), ExpiresOf(cache.ex, cache.off))]))
     ELSE PrintT(ToJson([fam |-> "resolve", origin |-> origin, wk |-> wk, srv |-> srv, lat |-> lat,
-                        refused |-> refused, result |-> result, wkreqs |-> wkreqs,
+                        refused |-> refused, result |-> result, wkreqs |-> wkreqs, nsrvq |-> Len(srvq),
+                        spell |-> [o |-> TxtOf(origin), d |-> TxtOf(wk.target)],
                         lwk |-> [ok |-> Honoured(wk), addr |-> wk.target]]))
 =============================================================================
